@@ -10,7 +10,7 @@ EXTENDS NatInt, TLC
 CONSTANTS W, Variant
 S == INSTANCE FpDec WITH ZAdd <- IAdd, ZSub <- ISub, ZMul <- IMul, ZCmp <- ICmp, ZFloorDivMod <- IFloorDivMod, ZLit <- ILit,
        ZNeg <- INeg, ZAbs <- IAbs, ZSign <- ISign, ZIsEven <- IIsEven, ZMod5Is0 <- IMod5Is0, ZPow10 <- IPow10, ZPow2 <- IPow2,
-       ZDigits <- IDigits, MaxFrac <- 2, CoeffBits <- 2*W - 1
+       ZDigits <- IDigits, MaxFrac <- 2, CoeffBits <- 2*W - 1, CoeffMax <- 2^(2*W-1) - 1, CoeffMin <- 0 - 2^(2*W-1), MaxDigits <- IDigits(2^(2*W-1) - 1)
 B == 2^W                        \* half-word base
 M == B * B                      \* word modulus (2^128 in the crate)
 IMAX == M \div 2 - 1
